@@ -208,11 +208,37 @@ class Ctx:
             return
         axs = parse_assumptions(out)
         self.axioms = sorted(axs)
+        if self.tier == 'thorough':
+            self.coqchk(propfile, allowed)
         for a in axs:
             base = a
             if base in allowed or ('float' in allowed and (any(base.startswith(p) for p in FLOAT_PRIMS_PREFIX) or base in STDLIB_FLOAT_NAMES)):
                 continue
             self.broke('axiom', a, 'axiom outside the whitelist of this property')
+
+    def coqchk(self, propfile, allowed):
+        """thorough tier: re-check the compiled Props file and everything it depends on with the independent checker;
+        the axioms it lists (for the whole loaded context) are recorded; anything outside the stdlib sets is an obligation broken."""
+        mod = 'PB.' + propfile[:-2].replace('/', '.')
+        t = time.time()
+        rc, out = sh(['bash', '-c', f'ulimit -s unlimited; timeout 3000 coqchk -silent -o -Q . PB {mod}'], cwd=COQ, timeout=3100)
+        self.extra['coqchk'] = dict(module=mod, exit=rc, wall_s=round(time.time() - t, 1))
+        if rc != 0:
+            self.broke('proof', 'coqchk ' + mod, out)
+            return
+        m = re.search(r'\* Axioms:(.*?)\n\s*\n\* Constants', out, re.S)
+        axs = []
+        if m and '<none>' not in m.group(1):
+            axs = [a.strip() for a in m.group(1).strip().split('\n') if a.strip()]
+        self.extra['coqchk']['axioms'] = axs
+        for sect in ('type-in-type', 'unsafe (co)fixpoints', 'positivity is assumed'):
+            mm = re.search(re.escape(sect) + r':\s*(.*?)\n\s*\n', out + '\n\n', re.S)
+            if mm and '<none>' not in mm.group(1):
+                self.broke('proof', 'coqchk: ' + sect, mm.group(1)[:500])
+        ok_prefix = ('Coq.', 'Flocq.', 'Coquelicot.', 'mathcomp.')
+        for a in axs:
+            if not a.startswith(ok_prefix):
+                self.broke('axiom', a, 'coqchk lists an axiom declared outside the installed libraries')
 
     # -- evaluating model + spec inside Coq ---------------------------------------------------
     def run_cases(self, header, items, result_ty='Z', shard=400, timeout=900, tag='cases'):
